@@ -8,14 +8,17 @@
 (*   ents   client entries: [p |-> path of the node, c |-> client, q |-> qos]                   *)
 (*                                                                                              *)
 (* One action per locked section of TopicManager (subscribe / unsubscribe hold mgr.Lock for the  *)
-(* whole packet).  session.go's bookkeeping (`sess`: the filters teardown will unsubscribe) is    *)
-(* modelled too, because Disconnect removes exactly what the session remembers.                   *)
+(* whole packet).  session.go's bookkeeping (`sess`: the filters teardown will unsubscribe, and   *)
+(* the filter -> QoS table a resumed session is re-subscribed from) is modelled too, because      *)
+(* Disconnect removes exactly what the session remembers and Resume puts back exactly that.        *)
 EXTENDS MqttTopics
 
-CONSTANT PartialInsert   \* TRUE: the pinned tree (subscribe stops at the first malformed filter, earlier
+CONSTANT PartialInsert,  \* TRUE: the pinned tree (subscribe stops at the first malformed filter, earlier
                          \* ones stay in the trie); FALSE: all filters are validated before any is inserted
+         ResumePairwise  \* TRUE: a resumed session's filters are subscribed again each with its own QoS (the code);
+                         \* FALSE: the QoS values are handed out in some other order (lead generation: must be refuted)
 
-VARIABLES nodes, ents, sess     \* sess: [Clients -> SUBSET filters]  (Session.info.Topics keys)
+VARIABLES nodes, ents, sess     \* sess: [Clients -> set of [f, q]], one q per f  (Session.info.Topics: filter -> QoS)
 
 ivars == <<vars, nodes, ents, sess>>
 iview == <<subs, n, nodes, ents, sess>>
@@ -66,6 +69,16 @@ Walk(N, E, front, rest, acc) ==
 Found(t) == Walk(nodes \cup {<<>>}, ents, {<<>>}, t, {})
 ImplRoute(t) == [c \in {x[1] : x \in Found(t)} |-> {x[2] : x \in {y \in Found(t) : y[1] = c}}]
 
+SessFilters(c) == {s.f : s \in sess[c]}
+(* Session.subscribe: the map entry of every filter of the packet is overwritten in packet order *)
+SessPut(S, fs, qs) ==
+    LET lastq(f) == qs[CHOOSE i \in 1..Len(fs) : fs[i] = f /\ \A j \in (i + 1)..Len(fs) : fs[j] # f]
+        F == {fs[i] : i \in 1..Len(fs)}
+    IN {s \in S : s.f \notin F} \cup {[f |-> f, q |-> lastq(f)] : f \in F}
+RECURSIVE InsSet(_, _, _)
+InsSet(T, c, S) ==
+    IF S = {} THEN T ELSE LET s == CHOOSE x \in S : TRUE IN InsSet(Ins(T.nodes, T.ents, c, s.f, s.q), c, S \ {s})
+
 IInit == Init /\ nodes = {} /\ ents = {} /\ sess = [c \in Clients |-> {}]
 
 (* processSubscribe: TopicManager.subscribe inserts filter by filter and returns at the first    *)
@@ -78,17 +91,17 @@ ISubscribe(c, fs, qs) ==
         T == InsFrom([nodes |-> nodes, ents |-> ents], c, fs, qs, upto, 1)
     IN /\ Subscribe(c, fs, qs, 1..upto)
        /\ nodes' = T.nodes /\ ents' = T.ents
-       /\ sess' = IF upto = Len(fs) THEN [sess EXCEPT ![c] = @ \cup {fs[i] : i \in 1..Len(fs)}] ELSE sess
+       /\ sess' = IF upto = Len(fs) THEN [sess EXCEPT ![c] = SessPut(@, fs, qs)] ELSE sess     \* Session.subscribe: Topics[f] = q, in order
 
 IUnsubscribe(c, fs) ==
     LET T == RemAll([nodes |-> nodes, ents |-> ents], c, {fs[i] : i \in 1..Len(fs)})
     IN /\ Unsubscribe(c, fs)
        /\ nodes' = T.nodes /\ ents' = T.ents
-       /\ sess' = [sess EXCEPT ![c] = @ \ {fs[i] : i \in 1..Len(fs)}]
+       /\ sess' = [sess EXCEPT ![c] = {s \in @ : \A i \in 1..Len(fs) : fs[i] # s.f}]
 
 (* closeAndDelSession: unsubscribe what the session remembers *)
 IDisconnect(c) ==
-    LET T == RemAll([nodes |-> nodes, ents |-> ents], c, sess[c])
+    LET T == RemAll([nodes |-> nodes, ents |-> ents], c, SessFilters(c))
     IN /\ Disconnect(c)
        /\ nodes' = T.nodes /\ ents' = T.ents
        /\ sess' = [sess EXCEPT ![c] = {}]
@@ -96,10 +109,23 @@ IDisconnect(c) ==
 (* takeover by a cleanSession=true connection followed by the end of the old connection: in the   *)
 (* trie this is the old connection's teardown                                                       *)
 ITakeover(c) ==
-    LET T == RemAll([nodes |-> nodes, ents |-> ents], c, sess[c])
+    LET T == RemAll([nodes |-> nodes, ents |-> ents], c, SessFilters(c))
     IN /\ Takeover(c)
        /\ nodes' = T.nodes /\ ents' = T.ents
        /\ sess' = [sess EXCEPT ![c] = {}]
+
+(* a persistent session's connection ends (closeAndDelSession: the session's filters leave the trie; *)
+(* the stored session stays) and the client connects again with cleanSession=false (handleConn:       *)
+(* the session is loaded and allSubscribes() - filters and their QoS, pairwise - is subscribed again)  *)
+Shuffles(S) == IF ResumePairwise THEN {S}
+               ELSE {{[f |-> s.f, q |-> g[s].q] : s \in S} : g \in {h \in [S -> S] : \A x, y \in S : h[x] = h[y] => x = y}}
+IResume(c) ==
+    \E S \in Shuffles(sess[c]) :
+        LET T0 == RemAll([nodes |-> nodes, ents |-> ents], c, SessFilters(c))
+            T  == InsSet(T0, c, S)
+        IN /\ Resume(c)
+           /\ nodes' = T.nodes /\ ents' = T.ents
+           /\ UNCHANGED sess
 
 INext ==
     /\ n < MaxOps
@@ -108,6 +134,7 @@ INext ==
        \/ \E fs \in FilterSeqs : IUnsubscribe(c, fs)
        \/ IDisconnect(c)
        \/ ITakeover(c)
+       \/ IResume(c)
 
 ISpec == IInit /\ [][INext]_ivars
 
@@ -116,6 +143,8 @@ SameValidity == \A f \in Filters : ImplValid(f) = ValidFilter(f)
 Refines == \A t \in Topics : ImplRoute(t) = Route(t)
 (* what the trie holds is what the contract calls live *)
 EntsAreSubs == {[c |-> e.c, f |-> e.p, q |-> e.q] : e \in ents} = subs
+(* what the sessions remember is what the contract calls live (repaired code: a rejected SUBSCRIBE records nothing) *)
+SessAreSubs == PartialInsert \/ \A c \in Clients : {[c |-> c, f |-> s.f, q |-> s.q] : s \in sess[c]} = {s \in subs : s.c = c}
 TrieEmptyIffNoSubs == (subs = {}) <=> (nodes = {} /\ ents = {})
 NoDeadNodes == \A p \in nodes : (\E e \in ents : e.p = p) \/ Children(nodes, p) # {}
 =============================================================================
